@@ -4,6 +4,9 @@ package obs
 
 import (
 	"fmt"
+	"reflect"
+	"sort"
+	"strings"
 	"sync/atomic"
 
 	"github.com/nlnwa/whatwg-url/url"
@@ -232,8 +235,35 @@ func ApplySetter(u *url.Url, name, v string) {
 	case "hash":
 		u.SetHash(v)
 	default:
+		if m, ok := extraSetterIndex[name]; ok {
+			reflect.ValueOf(u).Method(m).Call([]reflect.Value{reflect.ValueOf(v)})
+			return
+		}
 		panic("obs: unknown setter " + name)
 	}
+}
+
+// ExtraSetters lists, as "x:<Method>", the exported methods of *url.Url named Set… that take
+// exactly one string and are not among the nine setters the harness was written against:
+// a setter added to the library later.  The list is empty on the tree the harness was built
+// for; when it is not, the state monitors (C02, C04, C13, C19) drive those methods as
+// further steps of their histories — every state a public setter reaches is a reachable state.
+var ExtraSetters []string
+var extraSetterIndex = map[string]int{}
+
+func init() {
+	known := map[string]bool{"SetProtocol": true, "SetUsername": true, "SetPassword": true, "SetHost": true, "SetHostname": true,
+		"SetPort": true, "SetPathname": true, "SetSearch": true, "SetHash": true}
+	t := reflect.TypeOf((*url.Url)(nil))
+	for i := 0; i < t.NumMethod(); i++ {
+		m := t.Method(i)
+		if !strings.HasPrefix(m.Name, "Set") || known[m.Name] || m.Type.NumIn() != 2 || m.Type.In(1).Kind() != reflect.String || m.Type.IsVariadic() {
+			continue
+		}
+		ExtraSetters = append(ExtraSetters, "x:"+m.Name)
+		extraSetterIndex["x:"+m.Name] = i
+	}
+	sort.Strings(ExtraSetters)
 }
 
 // IsSetter reports whether name is one of the nine setters.
